@@ -17,6 +17,117 @@ def _stored_plus_one(v):
     return x is not None and x.startswith("unwrap_or(poll(get_int(") and x.endswith("@Ready.0, 0)") and "'consecutive_failed_install_attempts'" in x and x.count("get_int(") == 1
 
 
+def _transition(rows):
+    """rows: [(elem cond or None, state cond or None, value)] with elem in {'IPE','Updated','other'}, state in {'None','!None'},
+    value in {'Some{0}','Some{1}','same'}  ->  {(state, elem): set(values)} over the 3x3 domain."""
+    out = {}
+    for st in ("None", "Some{0}", "Some{1}"):
+        for el in ("IPE", "Updated", "other"):
+            vals = set()
+            for (ec, sc, v) in rows:
+                if ec is not None and ec != el:
+                    continue
+                if sc is not None and ((sc == "None") != (st == "None")):
+                    continue
+                vals.add(st if v == "same" else v)
+            out[(st, el)] = vals
+    return out
+
+
+EXPECTED_T = {(st, el): {"Some{0}" if el == "IPE" else (("Some{1}" if st == "None" else st) if el == "Updated" else st)}
+              for st in ("None", "Some{0}", "Some{1}") for el in ("IPE", "Updated", "other")}
+
+
+def _summary_loop_table(R, sm, rb):
+    c = sm.c
+    W = sm.w
+    # first-match spellings: find_map(|app| ..) keeps the first decisive element — as a transition: (None, e) -> f(e), (Some x, e) -> Some x
+    fm = [(bi, t) for bi, t in rb.calls() if lib.callee_is(t, "std::iter::Iterator::find_map") and "Option<bool>" in c.types[t["destt"]]["s"]]
+    if len(fm) == 1:
+        clo = [x for x in walk(rb.trace_op(fm[0][1]["args"][1])) if x[0] == "agg" and x[1] == "closure"]
+        if clo:
+            cb = W.bv(clo[0][2])
+            rows = []
+            for conds, d in cb.decision_paths(0, 0):
+                ec = None
+                for k_ in cond_desc(cb, conds):
+                    subj, nm = k_.rsplit("=", 1)
+                    if subj.endswith(".result"):
+                        ec = {"InstallPlanExecutionError": "IPE", "Updated": "Updated"}.get(nm, "other")
+                val = terms.render(cb, cb._trace_rv(cb.blocks[d[0]]["s"][d[1]]["r"], None, 0), W, {}) if d is not None and d[1] is not None else "?"
+                rows.append((ec, "None", {"None{}": "same"}.get(val, val)))
+            rows.append((None, "!None", "same"))
+            T = _transition(rows)
+            diff = sorted("%s,%s -> %s (expected %s)" % (k[0], k[1], sorted(v), sorted(EXPECTED_T[k])) for k, v in T.items() if v != EXPECTED_T[k])
+            R.check("C18-R2", "fold-table", not diff, "first-match summary equals the property's table", "the per-app install summary (find_map: the first decisive app wins) differs from the property's table: %s" % diff[:4], lib.loc(rb, fm[0][0]))
+            return
+    cands = []
+    for l, ds in rb.defs.items():
+        if rb.lty(l)["s"] != "std::option::Option<bool>" or not rb.locals[l].get("u"):
+            continue
+        loops = [L_ for L_ in rb.sccs() if any(d[0] in L_ for d in ds)]
+        if loops:
+            cands.append((l, ds, loops[0]))
+    if len(cands) != 1:
+        R.inconclusive("C18-R2", "fold-table", "the per-app install summary is computed neither by Iterator::fold nor by one loop over an Option<bool> (%d candidates)" % len(cands))
+        return
+    l, ds, L_ = cands[0]
+    init = [terms.render(rb, rb._trace_rv(d[3], None, 0), W, {}) for d in ds if d[0] not in L_ and d[2] == "rv"]
+    heads = [b for b in L_ if any(p_ not in L_ for p_ in rb.pred[b])]
+    nexts = [terms.render(rb, rb.trace_op(t["args"][0]), W, {}) for bi, t in rb.calls() if bi in L_ and lib.callee_is(t, "std::iter::Iterator::next")]
+    R.check("C18-R2", "fold-source", init == ["None{}"] and len(heads) == 1 and len(nexts) == 1 and "app_responses" in nexts[0] and not any(w in nexts[0] for w in ("filter", "skip", "take", "rev(")),
+            "loop over result.app_responses starting from None", "the summary loop starts from %s over %s" % (init, [n_[-80:] for n_ in nexts]))
+    if len(heads) != 1:
+        return
+    rows = []
+    bad = []
+    for conds, d in rb.decision_paths(heads[0], l, stop=set(heads), within=set(L_)):
+        ec = sc = None
+        for (cb_, labs) in conds:
+            si = guards.switch_info(rb, cb_)
+            if si is None:
+                bad.append("unreadable switch")
+                continue
+            names = []
+            for lb in labs:
+                if si.kind == "bool":
+                    names.append("false" if lb == 0 else "true")
+                elif lb == "otherwise":
+                    cov = set(a for a, _ in si.arms)
+                    names.append("!" + "|".join(si.names.get(v, str(v)) for v in sorted(cov)))
+                else:
+                    names.append(si.names.get(lb, str(lb)))
+            subj = lib.apath(rb.trace_place(si.place)) if si.kind == "discr" else lib.apath(si.term)
+            nm = "|".join(names)
+            if si.kind == "discr" and not subj.endswith(".result") and (lib.head_call(si.term) or "").endswith("Iterator::next"):
+                continue
+            if si.kind == "discr" and subj.endswith(".result"):
+                ec = {"InstallPlanExecutionError": "IPE", "Updated": "Updated"}.get(nm, "other" if nm.startswith("!") else "?")
+                if ec == "?":
+                    # an arm for another Action variant: same as `other` for this table
+                    ec = "other"
+            elif si.kind == "discr" and not si.place.get("p") and si.place["l"] == l:
+                sc = "None" if nm == "None" else "!None"
+            elif si.kind == "bool" and si.term[0] == "call" and lib.norm(si.term[1]).split("::")[-1] in ("is_none", "is_some"):
+                isn = lib.norm(si.term[1]).endswith("is_none")
+                sc = "None" if (nm == "true") == isn else "!None"
+            else:
+                bad.append("%s=%s" % (subj[:40], nm))
+        val = "same"
+        if d is not None and d[1] is not None:
+            val = terms.render(rb, rb._trace_rv(rb.blocks[d[0]]["s"][d[1]]["r"], None, 0), W, {})
+        elif d is not None:
+            val = "call"
+        rows.append((ec, sc, val))
+    if bad:
+        R.inconclusive("C18-R2", "fold-table", "the summary loop branches on conditions this rule does not know: %s" % sorted(set(bad))[:3])
+        return
+    T = _transition(rows)
+    diff = sorted("%s,%s -> %s (expected %s)" % (k[0], k[1], sorted(v), sorted(EXPECTED_T[k])) for k, v in T.items() if v != EXPECTED_T[k])
+    R.check("C18-R2", "fold-table", not diff, "summary loop: any failure -> Some(false); else first update -> Some(true); else unchanged (%d paths)" % len(rows),
+            "the per-app install summary differs from the property's table: %s" % diff[:4])
+
+
 def nodes_of(S, bv, bi):
     return [n.idx for n in S.nodes if n.ctx.bv is bv and n.bi == bi and n.idx in S.live]
 
@@ -95,7 +206,10 @@ def run(F, R):
     root = S.root
     rb = root.bv
     folds = [(bi, t) for bi, t in rb.calls() if lib.callee_is(t, "std::iter::Iterator::fold")]
-    if R.floor("C18-R2", "fold over the app results", len(folds), 1):
+    if not folds:
+        # the install-success summary is not computed by a fold: read the same transition table off the loop that carries it
+        _summary_loop_table(R, sm, rb)
+    else:
         bi, t = folds[0]
         init = terms.render(rb, rb.trace_op(t["args"][1]), W, {})
         src = terms.render(rb, rb.trace_op(t["args"][0]), W, {})
@@ -110,13 +224,26 @@ def run(F, R):
                     val = terms.render(cb, cb._trace_rv(cb.blocks[d[0]]["s"][d[1]]["r"], None, 0), W, {})
                 rows.add((tuple(cond_desc(cb, conds)), val))
             pretty = sorted("%s -> %s" % (" & ".join(k), v) for k, v in rows)
-            exp = sorted([
-                "param3.result=InstallPlanExecutionError -> Some{0}",
-                "param3.result=Updated & param2=None -> Some{1}",
-                "param3.result=Updated & param2=!None -> param2",
-                "param3.result=!InstallPlanExecutionError|Updated -> param2",
-            ])
-            R.check("C18-R2", "fold-table", pretty == exp, "; ".join(pretty), "install-success fold is %s, expected %s" % (pretty, exp))
+            # decide the table semantically (order of arms, guards vs nested matches do not matter)
+            trows = []
+            unknown = []
+            for k_, v in rows:
+                ec = sc = None
+                for cnd in k_:
+                    subj, nm = cnd.rsplit("=", 1)
+                    if subj.endswith(".result"):
+                        ec = {"InstallPlanExecutionError": "IPE", "Updated": "Updated"}.get(nm, "other")
+                    elif subj == "param2":
+                        sc = "None" if nm == "None" else "!None"
+                    else:
+                        unknown.append(cnd)
+                trows.append((ec, sc, "same" if v == "param2" else v))
+            if unknown:
+                R.inconclusive("C18-R2", "fold-table", "the fold closure branches on conditions this rule does not know: %s" % sorted(set(unknown))[:3])
+            else:
+                T = _transition(trows)
+                diff = sorted("%s,%s -> %s (expected %s)" % (k[0], k[1], sorted(v), sorted(EXPECTED_T[k])) for k, v in T.items() if v != EXPECTED_T[k])
+                R.check("C18-R2", "fold-table", not diff, "; ".join(pretty), "the per-app install summary differs from the property's table: %s" % diff[:4])
     helper = [k for k in bykey.get(K["attempts"], []) if k["name"] == "get_int"]
     if R.floor("C18-R2", "reader of the attempt counter", len(helper), 1):
         hv = helper[0]["bv"]
@@ -126,10 +253,32 @@ def run(F, R):
         for cx in hctx:
             # called iff install_success is Some
             someE = []
+            # the summary value = the Option<bool> whose Some payload is handed to the counter helper
+            # (the helper is an async fn: the call that builds its future carries the arguments)
+            mk = [n for n in S.nodes if n.idx in S.live and n.ctx is cx.parent and n.term["k"] == "call" and hv.body.get("parent") and n.term.get("callee_id") == hv.body.get("parent")]
+            site = mk[0] if mk else (S.nodes[cx.site] if cx.site is not None else None)
+            summary = None
+            if site is not None and site.term["k"] == "call":
+                pv_ = site.ctx.bv
+                for a_ in site.term["args"]:
+                    pl_ = a_.get("m") or a_.get("c")
+                    hops = 0
+                    while pl_ and not pl_.get("p") and hops < 6 and summary is None:
+                        hops += 1
+                        nxt = None
+                        for (dbi, dsi, kind, x) in pv_.defs.get(pl_["l"], []):
+                            if kind == "rv" and x["k"] == "use":
+                                src_ = x["o"].get("m") or x["o"].get("c")
+                                pj = (src_ or {}).get("p", [])
+                                if src_ and len(pj) == 2 and pj[0]["k"] == "downcast" and pj[0].get("n") == "Some" and pj[1]["k"] == "field":
+                                    summary = src_["l"]
+                                elif src_ and not pj:
+                                    nxt = src_
+                        pl_ = nxt
             for m in S.nodes:
                 if m.ctx is cx.parent and m.idx in S.live and m.term["k"] == "switch":
                     si = guards.switch_info(m.ctx.bv, m.bi)
-                    if si and si.kind == "discr" and si.ty.get("d") == "std::option::Option" and (lib.head_call(si.term) or "").endswith("Iterator::fold"):
+                    if si and si.kind == "discr" and si.ty.get("d") == "std::option::Option" and ((lib.head_call(si.term) or "").endswith("Iterator::fold") or (summary is not None and not m.ctx.bv.switch_subject(m.bi)[0].get("p") and m.ctx.bv.switch_subject(m.bi)[0]["l"] == summary)):
                         for b in S.succ[m.idx]:
                             nm = [si.names.get(l[2], str(l[2])) for l in S.elabel.get((m.idx, b), []) if l[0] == "switch"]
                             if "Some" in nm:
